@@ -50,6 +50,11 @@ next:
 		if !strings.Contains(h, tag) || goroutineID(h) == selfID {
 			continue
 		}
+		// the goroutine that called synctest.Test (it is the bubble's root while Run is in progress) and
+		// the testing package's relay goroutine are part of every bubble
+		if strings.Contains(g, "internal/synctest.Run(") || strings.Contains(g, "testing/synctest.testingSynctestTest(") {
+			continue
+		}
 		for _, ig := range ignore {
 			if strings.Contains(g, ig) {
 				continue next
